@@ -124,7 +124,7 @@ Proof. apply Permutation_length, isort_perm. Qed.
 Lemma almost_zero_false_nonzero a : almost_zero ROps a = false -> a <> V3 0 0 0.
 Proof.
   intros H ->. unfold almost_zero, atol8, nfrac in H; rops; cbn [vx vy vz] in H. rewrite Rabs_R0 in H.
-  destruct (Rleb_spec 0 (1 / 100000000)); [discriminate|lra].
+  destruct (Rleb_spec 0 (3022314549036573 / 302231454903657293676544)); [discriminate|lra].
 Qed.
 Lemma unit_normalize_id u : vnorm2 ROps u = 1 -> vnormalize ROps u = u.
 Proof.
@@ -189,4 +189,66 @@ Proof.
   intros Hx. apply (Permutation_in _ (Permutation_sym (isort_perm l))) in Hx.
   apply (In_nth _ _ 0) in Hx. destruct Hx as (k & Hk & <-). rewrite isort_length in Hk.
   split; apply sorted_nth_le; try apply isort_sorted; rewrite isort_length; lia.
+Qed.
+
+(* ---- the percentile value for every q in [0,100] ----------------------------------------------------------- *)
+Lemma Int_part_bounds x n : 0 <= x <= IZR n -> (0 <= Int_part x <= n)%Z /\ 0 <= x - IZR (Int_part x) < 1.
+Proof.
+  intros [H0 H1]. destruct (base_Int_part x) as [A B]. split; [|lra]. split.
+  - assert (H : (-1 < Int_part x)%Z) by (apply lt_IZR; simpl; lra). lia.
+  - apply le_IZR. lra.
+Qed.
+
+(* NumPy's linear-interpolation percentile: with virtual index v = (n-1) q/100, lo = floor v and g = v - lo in [0,1),
+   the value is s[lo] + g (s[lo+1] - s[lo]) on the sorted data s (s[lo] itself at the last position), and it lies
+   between these two neighbours *)
+Lemma percentile_value_spec l q : l <> [] -> 0 <= q <= 100 ->
+  let s := isort ROps l in let n := length l in
+  let v := IZR (Z.of_nat n - 1) * (q / 100) in
+  exists lo g, (lo <= n - 1)%nat /\ 0 <= g < 1 /\ v = INR lo + g /\
+    let hi := Nat.min (S lo) (n - 1) in
+    percentile_value ROps l q = List.nth lo s 0 + g * (List.nth hi s 0 - List.nth lo s 0) /\
+    List.nth lo s 0 <= percentile_value ROps l q <= List.nth hi s 0.
+Proof.
+  intros Hne Hq. cbv zeta.
+  assert (Hn : (1 <= length l)%nat) by (destruct l; [contradiction|cbn; lia]).
+  set (n := length l) in *. set (v := IZR (Z.of_nat n - 1) * (q / 100)).
+  assert (Hv : 0 <= v <= IZR (Z.of_nat n - 1)).
+  { assert (0 <= IZR (Z.of_nat n - 1)) by (apply IZR_le; lia). unfold v. split; [apply Rmult_le_pos; lra|].
+    rewrite <- (Rmult_1_r (IZR (Z.of_nat n - 1))) at 2. apply Rmult_le_compat_l; lra. }
+  destruct (Int_part_bounds v _ Hv) as [Hz Hg].
+  set (lo := Z.to_nat (Int_part v)).
+  assert (Elo : IZR (Int_part v) = INR lo).
+  { unfold lo. rewrite INR_IZR_INZ, Z2Nat.id by lia. reflexivity. }
+  exists lo, (v - IZR (Int_part v)). split; [unfold lo; lia|]. split; [exact Hg|]. split; [rewrite <- Elo; ring|].
+  assert (Ev : percentile_value ROps l q =
+               List.nth lo (isort ROps l) 0 + (v - IZR (Int_part v)) * (List.nth (Nat.min (S lo) (n - 1)) (isort ROps l) 0 - List.nth lo (isort ROps l) 0)).
+  { unfold percentile_value, n0; rops. rewrite isort_length. fold n. fold v. unfold Rfloor. fold lo.
+    rewrite <- INR_IZR_INZ, <- Elo. ring. }
+  split; [exact Ev|]. rewrite Ev.
+  assert (Hs : List.nth lo (isort ROps l) 0 <= List.nth (Nat.min (S lo) (n - 1)) (isort ROps l) 0).
+  { apply sorted_nth_le; [apply isort_sorted|]. rewrite isort_length. fold n. unfold lo. lia. }
+  set (a := List.nth lo (isort ROps l) 0) in *. set (b := List.nth (Nat.min (S lo) (n - 1)) (isort ROps l) 0) in *.
+  set (g := v - IZR (Int_part v)) in *. nra.
+Qed.
+
+(* ---- glue lemmas for props/C17.v ------------------------------------------------------------------------------ *)
+Lemma isort_sorted_permutation l : Permutation (isort ROps l) l /\ StronglySorted Rle (isort ROps l).
+Proof. exact (conj (isort_perm l) (isort_sorted l)). Qed.
+Lemma percentile_value_at_rank l :
+  (forall q k, (k < length l)%nat -> IZR (Z.of_nat (length l) - 1) * (q / 100) = IZR (Z.of_nat k) ->
+     percentile_value ROps l q = List.nth k (isort ROps l) 0) /\
+  (l <> [] -> percentile_value ROps l 0 = List.nth 0 (isort ROps l) 0 /\
+              percentile_value ROps l 100 = List.nth (length l - 1) (isort ROps l) 0) /\
+  (forall x, In x l -> List.nth 0 (isort ROps l) 0 <= x <= List.nth (length l - 1) (isort ROps l) 0).
+Proof.
+  split; [intros q k; apply percentile_value_at_index|]. split; [|apply isort_extremes].
+  intros H. exact (conj (percentile_value_0 l H) (percentile_value_100 l H)).
+Qed.
+
+Lemma Rfloor_unique z x : IZR z <= x < IZR z + 1 -> Rfloor x = z.
+Proof.
+  intros [A B]. unfold Rfloor, Int_part. assert (E : (z + 1)%Z = up x).
+  { apply tech_up; rewrite plus_IZR; simpl; lra. }
+  rewrite <- E. lia.
 Qed.
